@@ -78,6 +78,8 @@ Definition b_generator (i : Z) : res mat :=
 Definition b_vee (M : mat) : vec :=
   assemble g_dof (imap (fun i G => g_vee G (mblock M (idx g_alg i) (idx g_alg i) (g_alg G) (g_alg G)))).
 Definition b_trandom (u : vec) : vec := assemble g_dof (imap (fun i G => g_trandom G (tel u i G))).
+(* Bundle::Random(): LieGroup(Element<i>::Random()...) — every element draws DoF_i numbers *)
+Definition b_grandom (u : vec) : vec := assemble g_rep (imap (fun i G => g_grandom G (tel u i G))).
 
 Definition Bundle : GroupOps F := {|
   g_dim := total g_dim; g_dof := total g_dof; g_rep := total g_rep; g_tra := total g_tra; g_alg := total g_alg;
@@ -92,7 +94,8 @@ Definition Bundle : GroupOps F := {|
   g_smallAdj := b_smallAdj; g_generator := b_generator; g_vee := b_vee;
   g_bracket := fun a b => mvmul (b_smallAdj a) b;
   g_innerweights := inner_weights_generic (total g_dof) (total g_alg) b_generator;
-  g_trandom := b_trandom
+  g_trandom := b_trandom;
+  g_grandom := b_grandom
 |}.
 End Bundle.
 Arguments Bundle {F}. Arguments el {F}. Arguments tel {F}. Arguments assemble {F}. Arguments place {F}.
